@@ -307,6 +307,7 @@ class Interp:
         self.sqrt_facts = []
         self.calls = {}  # primitive name -> list of dict(arg=..., out=...)
         self.uf_calls = []  # (name, ins, outs)
+        self.narrowing = []  # precision-narrowing conversions applied to symbolic data
         self.uf_hook = None
         self.prim_count = {}
         self.eqns = 0
@@ -434,6 +435,27 @@ class Interp:
 
     def p_exp(self, e, ins, prm, odt):
         return self._trans("exp", e, ins, odt)
+
+    def p_expm1(self, e, ins, prm, odt):
+        # expm1(x) = exp(x) - 1 through the SAME Ackermannised exp (relations between the two stay visible);
+        # concrete elements are evaluated natively by the expm1 primitive itself
+        a = ins[0]
+        if all_conc(a):
+            return NotImplemented
+        cplx = np.dtype(odt).kind == "c"
+        one = sym.asfl(1)
+
+        def f(x):
+            if sym.is_conc(x):
+                nat = to_native(scalar(x), e.invars[0].aval.dtype)
+                with jax.ensure_compile_time_eval():
+                    r = e.primitive.bind(jnp.asarray(nat), **e.params)
+                return to_obj(np.asarray(r), inexact=True)[()]
+            return sym.sub(self._ack("exp", x, cplx), one, odt)
+
+        ex_out = emap(lambda x: x if sym.is_conc(x) else self._ack("exp", x, cplx), a)
+        self.calls.setdefault("exp", []).append({"arg": a, "out": ex_out})
+        return [emap(f, a)]
 
     def p_sin(self, e, ins, prm, odt):
         return self._trans("sin", e, ins, odt)
@@ -582,6 +604,10 @@ class Interp:
         new = np.dtype(prm["new_dtype"])
         old = np.dtype(e.invars[0].aval.dtype)
         a = ins[0]
+        if old.kind in "fc" and new.kind in "fc" and new.itemsize * (2 if new.kind == "f" else 1) < old.itemsize * (2 if old.kind == "f" else 1) and not all_conc(a):
+            # input-dependent data is rounded to a narrower float type: the real-arithmetic encoding does not model that
+            # rounding; it is recorded and reported when translator validation sees its effect
+            self.narrowing.append((str(old), str(new)))
         if new.kind == "c":
             def f(x):
                 if isinstance(x, Cx):
@@ -983,8 +1009,17 @@ class Interp:
 
     def p_cond(self, e, ins, prm, odt):
         idx = ins[0][()]
+        if isinstance(idx, (np.bool_, np.integer)):
+            idx = int(idx)
         if not isinstance(idx, (int, bool)):
-            raise EncodingError("cond with symbolic predicate")
+            # symbolic predicate (two branches): both branches are executed symbolically and merged element-wise
+            if len(prm["branches"]) != 2:
+                raise EncodingError("cond with a symbolic index over more than two branches")
+            if isinstance(idx, Fl) or not z3.is_expr(idx):
+                raise EncodingError("cond with an unexpected predicate value")
+            pred = idx if z3.is_bool(idx) else (idx != 0)  # lax.cond passes the predicate as an int32 index (0 / 1)
+            outs = [self._eval(br.jaxpr, br.consts, ins[1:]) for br in prm["branches"]]
+            return [emap(lambda f_, t_: sym.select(pred, f_, t_), a, b) for a, b in zip(outs[0], outs[1])]
         br = prm["branches"][int(idx)]
         return self._eval(br.jaxpr, br.consts, ins[1:])
 
